@@ -670,6 +670,16 @@ impl Printable for Suffix {
 			}
 			Self::SuffixApply(a) => {
 				p!(out, { a.args_desc() });
+				// The parser puts the modifier inside of the ARGS_DESC node.
+				let tailstrict = a.tailstrict_kw_token().is_some()
+					|| a.args_desc().is_some_and(|d| {
+						d.syntax()
+							.children_with_tokens()
+							.any(|t| t.kind() == jrsonnet_rowan_parser::SyntaxKind::TAILSTRICT_KW)
+					});
+				if tailstrict {
+					p!(out, str(" tailstrict"));
+				}
 			}
 		}
 	}
